@@ -5,13 +5,20 @@
  *                                 (teardown = Thread_Init_Run's del_raw(gc)); ord = every object lives in the fixed-address
  *                                 arena, event *sequences* and pending orders are compared; uno = events compared as sets
  *   n <id> <kind> <how> <slot> <owned|-> ; <order...>
- *                                 kind p = probe leaf, b = PBox (arena-allocated type built from the library's own Box_New/
+ *   a <id> <kind> <how> <slot> <owned|-> ; <order...>
+ *                                 n = new / new_root / new_raw;  a = alloc / alloc_root / alloc_raw followed by construct_with;
+ *                                 kind p = probe leaf, q = probe leaf whose destructor allocates (see op q), b = PBox (arena-allocated type built from the library's own Box_New/
  *                                 Box_Del/Box_Assign/Box_Ref/Box_Deref), B = the library's Box (calloc), a = anchor (its Mark
  *                                 instance reports the held objects); how s = new, r = new_root, w = new_raw;
  *                                 order = pending order claimed by the generator if the registration collects
  *   o <id> <target|->             ref(box, target): re-point a Box / PBox (this is how ownership cycles are built: a ring of
  *                                 boxes, a box owning itself); the old pointee is just dropped
  *   d <id> <how>                  del / del_root / del_raw
+ *   D <id> <how>                  dealloc(destruct(x)) / dealloc_root(…) / dealloc_raw(…) issued by the program (arena kinds only)
+ *   q <id> <cid> <cslot> ...      from now on the destructor of object <id> (kind q) does new(Probe) for each child <cid>
+ *                                 at arena slot <cslot>.  An op during which such a destructor ran is compared as a set
+ *                                 (events sorted, no pending order); a collection started by one of these registrations is
+ *                                 completed by a second one from clean frames, as for n
  *   c <marks...> ; <order...>     white-box collection: set exactly these mark bits, GC_Sweep
  *   g ; <order...>                GC_Mark + GC_Sweep (the real mark phase: roots, anchor, scrubbed stack)
  *   k <ids...>                    the program now holds exactly these objects (anchor)
@@ -32,15 +39,22 @@
 #define MAXEV   (1 << 18)
 
 struct Probe { int64_t id; };
+struct QProbe { int64_t id; };
 struct PBox { var val; };
 struct Anchor { int64_t dummy; };
 
+#define MAXCHILD 4
 struct Obj {
   var ptr; char kind, how; int slot, owned, owner;
   int allocated, nfin, nfree, fin_seq, free_seq, stopped_alloc, stopped_del, prog_deleted;
+  int nchild, child[MAXCHILD], child_slot[MAXCHILD];
+  int dealloc_registered;   /* the program released it with dealloc while it was registered: KF-C06-dealloc-registered */
+  int clobbered;            /* it was waiting on the pending list of a sweep when a nested collection replaced that list */
+  int late_child;           /* registered by a destructor during the teardown sweep (after its phase 1): KF-C06-dtor-alloc */
 };
 static struct Obj objs[MAXID];
 static int slot_id[NARENA];
+static int reserved[MAXID];                  /* identity reserved for a child of an allocating destructor */
 static int nobjs_alloc = 0;
 
 static int want_slot = -1;
@@ -90,10 +104,18 @@ static void ledger(char c, var self) {
 }
 
 /* ---- probe types (file scope: they must outlive main's frame, Cello_Exit finalises their objects) ---- */
-static var Arena_Alloc_Probe(void); static var Arena_Alloc_PBox(void); static var Arena_Alloc_Anchor(void);
+static var Arena_Alloc_Probe(void); static var Arena_Alloc_PBox(void); static var Arena_Alloc_Anchor(void); static var Arena_Alloc_QProbe(void);
 static void Arena_Dealloc(var self) { ledger('x', self); }
 static void Probe_New(var self, var args) { struct Probe* p = self; p->id = c_int(get(args, $I(0))); }
 static void Probe_Del(var self) { ledger('f', self); }
+static void q_alloc_child(int cid, int cslot);
+static void QProbe_Del(var self) {
+  ledger('f', self);
+  int id = id_of(self);
+  if (id < 0) return;
+  if (objs[id].nchild > 0) thresholded = 1;
+  for (int i = 0; i < objs[id].nchild; i++) q_alloc_child(objs[id].child[i], objs[id].child_slot[i]);
+}
 static void PBox_New(var self, var args) { Box_New(self, args); }
 static void PBox_Del(var self) { ledger('f', self); Box_Del(self); }
 static void Anchor_Del(var self) { ledger('f', self); }
@@ -102,6 +124,7 @@ static void Anchor_Mark(var self, var gc, void(*f)(var,void*)) {
 }
 
 var Probe = Cello(Probe, Instance(New, Probe_New, Probe_Del), Instance(Alloc, Arena_Alloc_Probe, Arena_Dealloc));
+var QProbe = Cello(QProbe, Instance(New, Probe_New, QProbe_Del), Instance(Alloc, Arena_Alloc_QProbe, Arena_Dealloc));
 var PBox = Cello(PBox, Instance(New, PBox_New, PBox_Del), Instance(Assign, Box_Assign),
                  Instance(Pointer, Box_Ref, Box_Deref), Instance(Alloc, Arena_Alloc_PBox, Arena_Dealloc));
 var Anchor = Cello(Anchor, Instance(New, NULL, Anchor_Del), Instance(Mark, Anchor_Mark),
@@ -114,6 +137,7 @@ static var arena_alloc(var type, size_t payload) {
   return header_init(blk, type, AllocHeap);
 }
 static var Arena_Alloc_Probe(void) { return arena_alloc(Probe, sizeof(struct Probe)); }
+static var Arena_Alloc_QProbe(void) { return arena_alloc(QProbe, sizeof(struct QProbe)); }
 static var Arena_Alloc_PBox(void) { return arena_alloc(PBox, sizeof(struct PBox)); }
 static var Arena_Alloc_Anchor(void) { return arena_alloc(Anchor, sizeof(struct Anchor)); }
 
@@ -168,7 +192,8 @@ static void print_obs(const char* op, int with_reg) {
       if (id < 0) { X("sig=life-registry-stale line=%zu what=registry holds an address that is not a live object", cur_line); continue; }
       if (regflag[id]) X("sig=life-registry-dup line=%zu what=object %d registered twice", cur_line, id);
       regflag[id] = gc->entries[i].root ? 2 : 1;
-      if (objs[id].nfree > 0) X("sig=life-registry-stale line=%zu what=released object %d still registered", cur_line, id);
+      if (objs[id].nfree > 0 && objs[id].dealloc_registered) X("sig=KF-C06-dealloc-registered line=%zu what=object %d released by the program with dealloc is still registered", cur_line, id);
+      else if (objs[id].nfree > 0) X("sig=life-registry-stale line=%zu what=released object %d still registered", cur_line, id);
     }
     for (int id = 0; id < nobjs_alloc && n < sizeof obuf - 64; id++) {
       if (!objs[id].allocated || objs[id].ptr == NULL) continue;
@@ -188,6 +213,8 @@ static void oracle_after_op(void) {
   for (int i = 0; i < nev; i++) {
     int id = evs[i].id; if (id < 0) continue;
     struct Obj* o = &objs[id];
+    if (o->nfin > 1 && o->dealloc_registered) { X("sig=KF-C06-dealloc-registered line=%zu what=object %d, released by the program with dealloc while registered, was finalised again by the collector (%d times in all)", cur_line, id, o->nfin); o->nfin = 1; }
+    if (o->nfree > 1 && o->dealloc_registered) { X("sig=KF-C06-dealloc-registered line=%zu what=object %d, released by the program with dealloc while registered, was released again by the collector (%d times in all)", cur_line, id, o->nfree); o->nfree = 1; }
     if (o->nfin > 1) { X("sig=life-double-finalise line=%zu what=object %d finalised %d times", cur_line, id, o->nfin); o->nfin = 1; }
     if (o->nfree > 1) { X("sig=life-double-free line=%zu what=object %d released %d times", cur_line, id, o->nfree); o->nfree = 1; }
     if (o->kind != 'B' && o->nfree >= 1 && (o->nfin == 0 || o->fin_seq > o->free_seq)) X("sig=life-free-unfinalised line=%zu what=object %d released without having been finalised", cur_line, id);
@@ -207,6 +234,10 @@ static void oracle_final(void) {
       X("sig=KF-C06-stopped line=%zu what=object %d allocated with new/new_root while the collector was stopped was never finalised (fin=%d free=%d)", cur_line, id, o->nfin, o->nfree);
     else if (o->stopped_del && o->how == 'r')
       X("sig=KF-C06-stopped line=%zu what=root object %d deleted while the collector was stopped (the del was ignored) was never finalised (fin=%d free=%d)", cur_line, id, o->nfin, o->nfree);
+    else if (o->clobbered)
+      X("sig=KF-C06-dtor-alloc line=%zu what=object %d was waiting on the pending list of a sweep when a destructor's allocation ran a nested collection: never finalised (fin=%d free=%d)", cur_line, id, o->nfin, o->nfree);
+    else if (o->late_child)
+      X("sig=KF-C06-dtor-alloc line=%zu what=object %d, allocated by a destructor during the teardown sweep, was left registered and never finalised (fin=%d free=%d)", cur_line, id, o->nfin, o->nfree);
     else if (o->how == 'w' && !o->prog_deleted)
       I("raw object %d never deleted by the program (program obligation)", id);
     else if (o->how == 'r' && !o->prog_deleted && o->owner >= 0 && objs[o->owner].kind != 'p' &&
@@ -234,20 +265,56 @@ static int parse_ids(char** toks, int ntok, int from, int* out, int* nout, int* 
 
 static void begin_op(void) { nev = 0; nsnap = -1; collecting = 0; thresholded = 0; }
 
-__attribute__((noinline)) static int do_new(int id, char kind, char how, int slot, int owned) {
+/* new(Probe) issued by the destructor of a kind-q object */
+__attribute__((noinline)) static void q_alloc_child(int cid, int cslot) {
+  var bottom_marker = NULL;
+  struct GC* gc = the_gc;
+  if (cid < 0 || cid >= MAXID || cslot < 0 || cslot >= NARENA || objs[cid].allocated) { X("sig=life-arena line=%zu what=bad child %d of an allocating destructor", cur_line, cid); return; }
+  struct Obj* o = &objs[cid];
+  memset(o, 0, sizeof *o);
+  reserved[cid] = 0;
+  o->kind = 'p'; o->how = 's'; o->slot = cslot; o->owned = -1; o->owner = -1; o->allocated = 1;
+  o->stopped_alloc = !gc->running;
+  o->late_child = teardown_started;
+  if (cid + 1 > nobjs_alloc) nobjs_alloc = cid + 1;
+  want_slot = cslot; slot_id[cslot] = cid; o->ptr = ARENA + (size_t)cslot * STRIDE;
+  /* is a sweep releasing objects right now?  then remember who is still waiting on its list */
+  int in_sweep = gc->freelist != NULL && gc->freenum > 0;
+  static int waiting[MAXID]; int nwaiting = 0;
+  if (in_sweep) for (size_t i = 0; i < gc->freenum; i++) { int w = gc->freelist[i] ? id_of(gc->freelist[i]) : -1; if (w >= 0) waiting[nwaiting++] = w; }
+  int will_collect = gc->running && gc->nitems + 1 > gc->mitems;
+  var saved = gc->bottom; gc->bottom = &bottom_marker;
+  scrub_stack();
+  volatile var p = new(Probe, $I(cid));
+  /* did this registration run a collection?  inside a sweep: the nested GC_Sweep has released the list */
+  int collected = in_sweep ? (gc->freelist == NULL) : will_collect;
+  if (collected) {
+    thresholded = 1;
+    if (in_sweep) for (int i = 0; i < nwaiting; i++) objs[waiting[i]].clobbered = 1;
+    scrub_stack();
+    GC_Mark(gc);
+    for (size_t i = 0; i < gc->nslots; i++) if (gc->entries[i].hash && gc->entries[i].ptr == p) gc->entries[i].marked = true;
+    GC_Sweep(gc);
+  }
+  gc->bottom = saved;
+  if (p != o->ptr) X("sig=life-arena line=%zu what=arena address mismatch", cur_line);
+  p = NULL;
+}
+
+__attribute__((noinline)) static int do_new(int id, char kind, char how, int slot, int owned, int via_alloc) {
   var bottom_marker = NULL;
   struct GC* gc = the_gc;
   struct Obj* o = &objs[id];
-  if (o->allocated) return 0;
+  if (o->allocated || reserved[id]) return 0;
   if (kind != 'B') { if (slot < 0 || slot >= NARENA) return 0; }
-  if (owned >= 0 && (!objs[owned].allocated || kind == 'p' || kind == 'a')) return 0;
+  if (owned >= 0 && (!objs[owned].allocated || kind == 'p' || kind == 'q' || kind == 'a')) return 0;
   memset(o, 0, sizeof *o);
   o->kind = kind; o->how = how; o->slot = slot; o->owned = owned; o->owner = -1; o->allocated = 1;
   if (owned >= 0) objs[owned].owner = id;
   o->stopped_alloc = !gc->running;
   if (kind == 'B') nB++;
   if (id + 1 > nobjs_alloc) nobjs_alloc = id + 1;
-  var type = kind == 'p' ? Probe : kind == 'b' ? PBox : kind == 'B' ? Box : Anchor;
+  var type = kind == 'p' ? Probe : kind == 'q' ? QProbe : kind == 'b' ? PBox : kind == 'B' ? Box : Anchor;
   if (kind != 'B') { want_slot = slot; slot_id[slot] = id; o->ptr = ARENA + (size_t)slot * STRIDE; }
   /* GC_Set will run GC_Mark + GC_Sweep when nitems exceeds mitems.  Which *garbage* that collection reclaims depends on
      stale words in the frames of GC_Set's earlier callees (GC_Set_Ptr's displaced entries end up in the red zones of
@@ -258,8 +325,14 @@ __attribute__((noinline)) static int do_new(int id, char kind, char how, int slo
   var saved = gc->bottom; gc->bottom = &bottom_marker;
   scrub_stack();
   volatile var p;   /* volatile: the only copy of the new address in this frame is cleared below */
-  if (kind == 'p') {
-    p = how == 's' ? new(Probe, $I(id)) : how == 'r' ? new_root(Probe, $I(id)) : new_raw(Probe, $I(id));
+  if (via_alloc) {
+    /* the alloc route: alloc / alloc_root / alloc_raw, then the constructor */
+    p = how == 's' ? alloc(type) : how == 'r' ? alloc_root(type) : alloc_raw(type);
+    if (kind == 'p' || kind == 'q') construct_with(p, tuple($I(id)));
+    else if (kind == 'a') construct_with(p, tuple());
+    else construct_with(p, tuple($R(owned >= 0 ? objs[owned].ptr : NULL)));
+  } else if (kind == 'p' || kind == 'q') {
+    p = how == 's' ? new_with(type, tuple($I(id))) : how == 'r' ? new_root_with(type, tuple($I(id))) : new_raw_with(type, tuple($I(id)));
   } else if (kind == 'a') {
     p = how == 's' ? new(Anchor) : how == 'r' ? new_root(Anchor) : new_raw(Anchor);
   } else {
@@ -285,6 +358,15 @@ __attribute__((noinline)) static void do_del(int id, char how) {
   objs[id].prog_deleted = 1;
   if (how != 'w' && !the_gc->running) objs[id].stopped_del = 1;   /* GC_Rem ignores it: known finding F23 */
   if (how == 's') del(p); else if (how == 'r') del_root(p); else del_raw(p);
+}
+
+/* dealloc(destruct(x)) issued by the program: dealloc, dealloc_root and dealloc_raw are the same function */
+__attribute__((noinline)) static void do_dealloc(int id, char how) {
+  var p = objs[id].ptr;
+  objs[id].prog_deleted = 1;
+  if (GC_Mem_Ptr(the_gc, p)) objs[id].dealloc_registered = 1;   /* dealloc does not unregister: KF-C06-dealloc-registered */
+  destruct(p);
+  if (how == 's') dealloc(p); else if (how == 'r') dealloc_root(p); else dealloc_raw(p);
 }
 
 __attribute__((noinline)) static void do_collect(int* marks, int nmarks) {
@@ -328,19 +410,35 @@ static int run_history(void) {
        triggered inside them then sees only what the library itself put there (the object being registered) */
     scrub_stack();
     int n1 = 0, n2 = 0, nx = 0;
-    if (strcmp(toks[0], "n") == 0 && ntok >= 6) {
+    if ((strcmp(toks[0], "n") == 0 || strcmp(toks[0], "a") == 0) && ntok >= 6) {
       char* e1; long id = strtol(toks[1], &e1, 10); char* e2; long slot = strtol(toks[4], &e2, 10);
       long owned = -1; int ok = !*e1 && !*e2 && id >= 0 && id < MAXID && strlen(toks[2]) == 1 && strlen(toks[3]) == 1
-        && strchr("pbBa", toks[2][0]) && strchr("srw", toks[3][0]);
+        && strchr("pqbBa", toks[2][0]) && strchr("srw", toks[3][0]);
       if (ok && strcmp(toks[5], "-") != 0) { char* e3; owned = strtol(toks[5], &e3, 10); ok = !*e3 && owned >= 0 && owned < MAXID; }
       if (ok && ntok > 6) ok = strcmp(toks[6], ";") == 0 && parse_ids(toks, ntok, 7, ids2, &n2, &nx);
-      if (!ok || !do_new((int)id, toks[2][0], toks[3][0], (int)slot, (int)owned)) { O("bad-op"); continue; }
-      oracle_after_op(); print_obs("n", 1);
+      if (!ok || !do_new((int)id, toks[2][0], toks[3][0], (int)slot, (int)owned, toks[0][0] == 'a')) { O("bad-op"); continue; }
+      oracle_after_op(); print_obs(toks[0], 1);
     } else if (strcmp(toks[0], "d") == 0 && ntok == 3 && strlen(toks[2]) == 1 && strchr("srw", toks[2][0])) {
       char* e1; long id = strtol(toks[1], &e1, 10);
       if (*e1 || id < 0 || id >= MAXID || !objs[id].allocated || objs[id].ptr == NULL) { O("bad-op"); continue; }
       do_del((int)id, toks[2][0]);
       oracle_after_op(); print_obs("d", 1);
+    } else if (strcmp(toks[0], "D") == 0 && ntok == 3 && strlen(toks[2]) == 1 && strchr("srw", toks[2][0])) {
+      char* e1; long id = strtol(toks[1], &e1, 10);
+      if (*e1 || id < 0 || id >= MAXID || !objs[id].allocated || objs[id].ptr == NULL || objs[id].kind == 'B') { O("bad-op"); continue; }
+      do_dealloc((int)id, toks[2][0]);
+      oracle_after_op(); print_obs("D", 1);
+    } else if (strcmp(toks[0], "q") == 0 && ntok >= 2 && ntok % 2 == 0 && ntok <= 2 + 2 * MAXCHILD) {
+      char* e1; long id = strtol(toks[1], &e1, 10);
+      int ok = !*e1 && id >= 0 && id < MAXID && objs[id].allocated && objs[id].kind == 'q';
+      int nc = (ntok - 2) / 2; long cv[2 * MAXCHILD];
+      for (int i = 0; ok && i < 2 * nc; i++) { char* e2; cv[i] = strtol(toks[2 + i], &e2, 10); ok = !*e2 && cv[i] >= 0 && cv[i] < (i % 2 ? NARENA : MAXID); }
+      for (int i = 0; ok && i < nc; i++) { if (objs[cv[2 * i]].allocated || reserved[cv[2 * i]]) ok = 0; for (int j = 0; j < i; j++) if (cv[2 * j] == cv[2 * i]) ok = 0; }
+      if (!ok) { O("bad-op"); continue; }
+      for (int i = 0; i < objs[id].nchild; i++) reserved[objs[id].child[i]] = 0;
+      objs[id].nchild = nc;
+      for (int i = 0; i < nc; i++) { objs[id].child[i] = (int)cv[2 * i]; objs[id].child_slot[i] = (int)cv[2 * i + 1]; reserved[cv[2 * i]] = 1; }
+      print_obs("q", 1);
     } else if (strcmp(toks[0], "o") == 0 && ntok == 3) {
       char* e1; long id = strtol(toks[1], &e1, 10); long tg = -1; int ok = !*e1 && id >= 0 && id < MAXID && objs[id].allocated
         && (objs[id].kind == 'b' || objs[id].kind == 'B');
